@@ -36,7 +36,13 @@ type SimCallback struct {
 	invoked   int
 	sharedErr bool         // failing invocations all return one and the same error value
 	src       *SimCallback // this registration is the same callback value as src (one error source, one invocation counter)
+	panicAt   int          // invocation number (1-based) at which the callback panics; 0 = never
 }
+
+// SimPanic is what a SimCallback panics with when the script says so: user
+// code blowing up in the middle of a library operation.  The caller (the
+// simulator) recovers it and carries on using the table.
+type SimPanic struct{ Reg int }
 
 type markerKey struct{ reg int }
 type colIdentKey struct{}
@@ -75,6 +81,14 @@ func (cb *SimCallback) UpdateProperties(po tabular.PropertyOwner) error {
 		w.Log.Add("cb " + ev.String())
 	}
 	yield(w.Y, "callback")
+	if cb.time != 0 && cb.panicAt > 0 && inv+1 >= cb.panicAt {
+		// only at render time: a panic in the middle of a building call would leave
+		// the table half-updated, and what the table is then is nobody's claim
+		w.Faults["cb_panic"]++
+		cb.panicAt = 0
+		w.simPanicked = true
+		panic(SimPanic{cb.id})
+	}
 	if root.fail[inv] {
 		var e error
 		if root.sharedErr {
@@ -265,6 +279,9 @@ func (w *World) DoCB(st *Step) (bool, *Violation) {
 		for _, n := range st.Plan {
 			cb.fail[n] = true
 		}
+		if st.E&8 != 0 {
+			cb.panicAt = 1 + pick(6, st.B+st.C+st.D)
+		}
 		if st.E&4 != 0 && len(w.regs) > 0 {
 			cb.src = w.regs[len(w.regs)-1]
 			if cb.src.src != nil {
@@ -357,7 +374,17 @@ func (w *World) DoCB(st *Step) (bool, *Violation) {
 		return true, nil
 	case "invokeRC":
 		w.beginPass()
-		w.Tab.InvokeRenderCallbacks()
+		func() {
+			defer func() {
+				if r := recover(); r != nil {
+					if _, ok := r.(SimPanic); !ok {
+						panic(r)
+					}
+					w.probe("callback_panic_recovered_by_the_caller")
+				}
+			}()
+			w.Tab.InvokeRenderCallbacks()
+		}()
 		return true, nil
 	}
 	return false, nil
@@ -598,6 +625,12 @@ func (w *World) regByID(id int) *SimCallback {
 func (w *World) CheckC13(op string) *Violation {
 	v := func(sig, format string, args ...interface{}) *Violation {
 		return &Violation{Property: "C13", Signature: "C13/" + sig + "@" + op, Detail: fmt.Sprintf(format, args...)}
+	}
+	if w.simPanicked {
+		// the pass was cut short by a callback that panicked (scripted): nothing
+		// to compare for this step; the passes after it are checked as usual
+		w.simPanicked = false
+		return nil
 	}
 	phase := "add"
 	if w.inPass {
